@@ -575,6 +575,8 @@ impl SeqSubject for CacheSubject {
         a.push(Op::Replace(1, 2));
         a.push(Op::Replace(2, 1));
         a.push(Op::Replace(0, 1));
+        // the empty size class: the file of a non-empty value keeps its header and no payload
+        a.push(Op::Replace(2, 0));
         a.push(Op::Delete(2));
         a.push(Op::Reopen);
         a
@@ -705,6 +707,9 @@ impl SeqSubject for LayeredSubject {
             LOp::FlipDisk(1),
             LOp::FlipDisk(2),
             LOp::ReplaceDisk(1, 2),
+            // the empty size class: no payload behind the header / an empty value put below
+            LOp::ReplaceDisk(1, 0),
+            LOp::PutLayer(1, 0, 1),
             LOp::DeleteDisk(1),
         ]
     }
